@@ -153,7 +153,7 @@ class C06(Spec):
         for p in prefixes:
             for n in names:
                 cases.append({'kind': 'seq', 'cls': 'seq-prefix', 'es': [p + n], 'vals': SEQ_VALS})
-        count = 2500 if tier == 'quick' else 25000
+        count = 1800 if tier == 'quick' else 25000
         for _ in range(count):
             e1 = self.expr(rng, rng.choice([1, 2, 2, 3]), names, prefixes)
             L = rng.choice([1, 2, 2, 3])
